@@ -47,6 +47,11 @@ enum Fresh {
 
 /// A request list in a fresh process (one answer per line), with a deadline.
 fn run_fresh(flat_ops: &[i64], limit: std::time::Duration) -> Fresh {
+  run_fresh_aux("history", flat_ops, limit)
+}
+
+/// `vcheck C10 --aux <name> <comma separated integers>` in a fresh process, one answer per line, with a deadline.
+fn run_fresh_aux(name: &str, flat_ops: &[i64], limit: std::time::Duration) -> Fresh {
   let exe = match std::env::current_exe() {
     Ok(e) => e,
     Err(_) => return Fresh::Failed,
@@ -59,7 +64,7 @@ fn run_fresh(flat_ops: &[i64], limit: std::time::Duration) -> Fresh {
     Ok(f) => f,
     Err(_) => return Fresh::Failed,
   };
-  let mut child = match std::process::Command::new(&exe).arg("C10").arg("--aux").arg("history").arg(arg).stdout(std::process::Stdio::from(file)).stderr(std::process::Stdio::null()).spawn() {
+  let mut child = match std::process::Command::new(&exe).arg("C10").arg("--aux").arg(name).arg(arg).stdout(std::process::Stdio::from(file)).stderr(std::process::Stdio::null()).spawn() {
     Ok(c) => c,
     Err(_) => return Fresh::Failed,
   };
@@ -911,18 +916,63 @@ impl C10 {
     out.eval("hammer");
     out.nontrivial("hammer", &case.a);
     clean_state();
+    // phase A (cold): 8 threads released together walk the dates in the SAME order, so each date is first asked for by
+    // several threads at once; the truth is the same observer in a fresh single-threaded process
+    let n = args.len();
+    let cold: Vec<Vec<String>> = {
+      let barrier = std::sync::Barrier::new(8);
+      std::thread::scope(|sc| {
+        let (args, barrier) = (&args, &barrier);
+        let hs: Vec<_> = (0..8).map(|_| sc.spawn(move || { barrier.wait(); args.iter().map(|(i, e)| light(kind, *i, *e).replace('\n', " ")).collect::<Vec<String>>() })).collect();
+        hs.into_iter().map(|h| h.join().unwrap_or_default()).collect()
+      })
+    };
+    let mut flat: Vec<i64> = vec![kind as i64];
+    for (i, e) in &args {
+      flat.push(*i);
+      flat.push(*e);
+    }
+    let fresh = match run_fresh_aux("light", &flat, stall_limit(std::time::Duration::from_secs(0))) {
+      Fresh::Answered(v) if v.len() == n => Some(v),
+      _ => {
+        out.skip("hammer_fresh_process_reference_unavailable");
+        None
+      }
+    };
+    if let Some(fr) = &fresh {
+      out.class_n("cold_concurrent_first_requests", (n * 8) as u64);
+      'cold: for (t, ans) in cold.iter().enumerate() {
+        for p in 0..n {
+          if ans.get(p) != Some(&fr[p]) {
+            let c = cal();
+            let (i, e) = args[p];
+            out.fail(env, Viol { sub: "hammer".into(), kind: "answer_differs_when_first_asked_concurrently".into(), case: case.clone(), key: key(&[("observer", kind as i64), ("jdn", c.jdn(i.clamp(0, NDAYS as i64 - 1) as usize)), ("e", e)]), desc: format!("{} of {} (extra argument {}), thread {} of 8 threads asking the same {} dates in the same order from a cold start", light_desc(kind), c.fmt(i.clamp(0, NDAYS as i64 - 1) as usize), e, t, n), expected: format!("{} (single-threaded in a fresh process)", fr[p]), got: ans.get(p).cloned().unwrap_or_else(|| "MISSING".into()) });
+            break 'cold;
+          }
+        }
+      }
+    }
+    clean_state();
     let a2 = args.clone();
     let refs: Vec<String> = std::thread::spawn(move || a2.iter().map(|(i, e)| light(kind, *i, *e)).collect()).join().unwrap_or_default();
     if refs.len() != args.len() {
       out.skip("hammer_reference_thread_failed");
       return;
     }
+    // what the concurrent first requests left behind must not have changed later single-threaded answers either
+    if let Some(fr) = &fresh {
+      if let Some(p) = (0..n).find(|&p| refs[p].replace('\n', " ") != fr[p]) {
+        let c = cal();
+        let (i, e) = args[p];
+        out.fail(env, Viol { sub: "hammer".into(), kind: "answer_changed_by_earlier_concurrent_requests".into(), case: case.clone(), key: key(&[("observer", kind as i64), ("jdn", c.jdn(i.clamp(0, NDAYS as i64 - 1) as usize)), ("e", e)]), desc: format!("{} of {} (extra argument {}) asked single-threaded after 8 threads had asked the same dates concurrently", light_desc(kind), c.fmt(i.clamp(0, NDAYS as i64 - 1) as usize), e), expected: format!("{} (single-threaded in a fresh process)", fr[p]), got: refs[p].clone() });
+        return;
+      }
+    }
     clean_state();
     out.class_n("hammered_requests", (args.len() * loops * 8) as u64);
     if out.wants_sample("hammer", true) {
       out.sample("hammer", true, || json!({"observer": light_desc(kind), "arguments": args.len(), "threads": 8, "loops": loops, "first_answer": refs.first()}));
     }
-    let n = args.len();
     let bad: Vec<Option<(usize, String)>> = std::thread::scope(|sc| {
       let (args, refs) = (&args, &refs);
       let hs: Vec<_> = (0..8usize)
@@ -1062,6 +1112,18 @@ impl Prop for C10 {
           run_case(env, out, "collide", &c, &ev);
         }
         out.set_exhaustive("collide", true);
+        // the same request twice, then day requests at the end of the month: a memo that stores a lossy copy answers the
+        // second time differently (every month of the special years, and of every 97th year)
+        if shard == 0 {
+          for y in (0..=9999i64).filter(|y| SPECIAL_YEARS.contains(y) || y % 97 == 5) {
+            for m in valid_months(y) {
+              let dc = LunarMonth::from_ym(y as isize, m as isize).get_day_count() as i64;
+              out.class("repeated_request_histories");
+              run_case(env, out, "collide", &Case::ints(&[0, y, m, 0, 0, 0, y, m, 0, 0, 1, y, m, dc, 0, 1, y, m, dc + 1, 0, 7, y, 0, 0, 0]), &ev);
+            }
+          }
+          clean_state();
+        }
         // the same two-request histories for pairs that coincide under arithmetic keys (sampled)
         let ap = arithmetic_key_pairs(env.tier.pick(400, 4000));
         let (lo, hi) = shard_range(ap.len(), shard, nshards);
@@ -1186,6 +1248,19 @@ impl Prop for C10 {
     }
   }
   fn aux(&self, _env: &Env, name: &str, arg: &str) -> i32 {
+    if name == "light" {
+      // kind, then (date index, extra) pairs: one narrow observation per line, single-threaded, in a process of its own
+      let a: Vec<i64> = arg.split(',').filter_map(|x| x.parse().ok()).collect();
+      if a.is_empty() {
+        return 2;
+      }
+      for pr in a[1..].chunks(2) {
+        if pr.len() == 2 {
+          println!("{}", light(a[0].rem_euclid(LIGHT_KINDS as i64) as usize, pr[0], pr[1]).replace('\n', " "));
+        }
+      }
+      return 0;
+    }
     if name == "history" {
       let a: Vec<i64> = arg.split(',').filter_map(|x| x.parse().ok()).collect();
       for op in a.chunks(OPW) {
